@@ -318,6 +318,122 @@ def ref_sheet_edit(case):
     kq = mv(case['comment'])
     return [','.join(sorted(cells)), mr or '-', coord_str(kq[0], kq[1], False, False) if kq else '-']
 
+class SheetSettings(Harness):
+    name = 'sheet.settings_edit'; property_id = 'C07'
+    entry = [WS + 'insert_new_row', WS + 'insert_new_column_by_index', WS + 'remove_row', WS + 'remove_column_by_index', WS + 'get_column_dimension_by_number_mut', WS + 'get_row_dimension_mut',
+             WS + 'add_conditional_formatting_collection', WS + 'set_auto_filter']
+    doc = 'a real Worksheet holding two column settings and two row settings at symbolic grid-wide positions, a conditional-format range and an auto filter; one public insert/remove of rows or columns with symbolic position and width; every setting is compared with the reference grid (moved by n at or beyond p, deleted inside the band, untouched before p, none invented)'
+    def __init__(self, tier):
+        self.D = 9 if tier == 'thorough' else 5
+        self.bounds = {'column_settings': 2, 'row_settings': 2, 'setting_positions': 'anywhere in the grid (symbolic column 1..16384, row 1..1048576)',
+                       'conditional_format_and_auto_filter_ranges': 'corners in 1..%d x 1..%d' % (self.D, self.D), 'edit': 'one of insert rows / insert columns / remove rows / remove columns, position 1..limit, width 1..limit'}
+    def run(self, it, ctx, res):
+        D = self.D
+        op = 'insert' if ctx.branch(ctx.sym_bool('op_insert')) else 'remove'
+        axis = 'row' if ctx.branch(ctx.sym_bool('axis_row')) else 'col'
+        lim = MAXR if axis == 'row' else MAXC
+        c1 = ctx.sym_int('c1', 1, MAXC); c2 = ctx.sym_int('c2', 1, MAXC); r1 = ctx.sym_int('r1', 1, MAXR); r2 = ctx.sym_int('r2', 1, MAXR)
+        ctx.assume(z3.And(c1 != c2, r1 != r2))
+        f1c = ctx.sym_int('f1c', 1, D); f1r = ctx.sym_int('f1r', 1, D); f2c = ctx.sym_int('f2c', 1, D); f2r = ctx.sym_int('f2r', 1, D)
+        a1c = ctx.sym_int('a1c', 1, D); a1r = ctx.sym_int('a1r', 1, D); a2c = ctx.sym_int('a2c', 1, D); a2r = ctx.sym_int('a2r', 1, D)
+        ctx.assume(z3.And(f1c <= f2c, f1r <= f2r, z3.Or(f1c < f2c, f1r < f2r), a1c <= a2c, a1r <= a2r, z3.Or(a1c < a2c, a1r < a2r)))
+        p = ctx.sym_int('p', 1, lim); n = ctx.sym_int('n', 1, lim)
+        mine = (r1, r2) if axis == 'row' else (c1, c2)
+        if op == 'insert':
+            for x in mine: ctx.assume(z3.If(x >= p, x + n <= lim, True))
+        else: ctx.assume(p + n - 1 <= lim)
+        info = {'op': op, 'axis': axis}
+        try:
+            ws = new_sheet(it)
+            col = it.call(WS + 'get_column_dimension_by_number_mut', [Ref(ws), iref(c1)]); it.call('structs::column::Column::set_hidden', [col, True])
+            col = it.call(WS + 'get_column_dimension_by_number_mut', [Ref(ws), iref(c2)]); it.call('structs::column::Column::set_best_fit', [col, True])
+            row = it.call(WS + 'get_row_dimension_mut', [Ref(ws), iref(r1)]); it.call('structs::row::Row::set_hidden', [row, True])
+            row = it.call(WS + 'get_row_dimension_mut', [Ref(ws), iref(r2)]); it.call('structs::row::Row::set_thick_bot', [row, True])
+            rg = Box_(it.call('<structs::range::Range as std::default::Default>::default', []))
+            it.call('structs::range::Range::set_range::<&str>', [Ref(rg), sref(SStr(sym_coord(ctx, f1c, f1r, False, False, 'f') + [58] + sym_coord(ctx, f2c, f2r, False, False, 'g')))])
+            cf = Box_(it.call('<structs::conditional_formatting::ConditionalFormatting as std::default::Default>::default', []))
+            sq = it.call('structs::conditional_formatting::ConditionalFormatting::get_sequence_of_references_mut', [Ref(cf)])
+            it.call('structs::sequence_of_references::SequenceOfReferences::add_range_collection', [sq, rg.v])
+            it.call(WS + 'add_conditional_formatting_collection', [Ref(ws), cf.v])
+            it.call(WS + 'set_auto_filter::<&str>', [Ref(ws), sref(SStr(sym_coord(ctx, a1c, a1r, False, False, 'a') + [58] + sym_coord(ctx, a2c, a2r, False, False, 'b')))])
+            fn = {('insert', 'row'): 'insert_new_row', ('insert', 'col'): 'insert_new_column_by_index', ('remove', 'row'): 'remove_row', ('remove', 'col'): 'remove_column_by_index'}[(op, axis)]
+            it.call(WS + fn, [Ref(ws), iref(p), iref(n)])
+        except Panic as e:
+            self.fail(ctx, res, 'no-panic', str(e), info=info); return
+        inband = lambda x: z3.And(x >= p, x < p + n)
+        def moved(x): return z3.If(x >= p, x + n, x) if op == 'insert' else z3.If(x >= p + n, x - n, x)
+        try:
+            # column settings
+            exp_cols = 0
+            for x, nm, g1, g2 in ((c1, 'column-1', True, False), (c2, 'column-2', False, True)):
+                if axis == 'col' and op == 'remove' and ctx.branch(inband(x)): continue
+                exp_cols += 1
+                nx = moved(x) if axis == 'col' else x
+                o = it.call(WS + 'get_column_dimension_by_number', [Ref(ws), iref(nx)])
+                if o.variant != 1: self.fail(ctx, res, nm + '-relocated', 'column setting not found at its new position', info=info); continue
+                h = deref_all(it.call('structs::column::Column::get_hidden', [o.fields[0]])); bf = deref_all(it.call('structs::column::Column::get_best_fit', [o.fields[0]]))
+                self.oblige(ctx, res, nm + '-relocated', z3.And(bool_eq(h, g1), bool_eq(bf, g2)), info=info)
+            cnt = len(deref_all(it.call(WS + 'get_column_dimensions', [Ref(ws)])))
+            self.oblige(ctx, res, 'column-settings-count', cnt == exp_cols, info=dict(info, count=cnt, expected=exp_cols))
+            # row settings
+            exp_rows = 0
+            for x, nm, g1, g2 in ((r1, 'row-1', True, False), (r2, 'row-2', False, True)):
+                if axis == 'row' and op == 'remove' and ctx.branch(inband(x)): continue
+                exp_rows += 1
+                nx = moved(x) if axis == 'row' else x
+                o = it.call(WS + 'get_row_dimension', [Ref(ws), iref(nx)])
+                if o.variant != 1: self.fail(ctx, res, nm + '-relocated', 'row setting not found at its new position', info=info); continue
+                h = deref_all(it.call('structs::row::Row::get_hidden', [o.fields[0]])); tb = deref_all(it.call('structs::row::Row::get_thick_bot', [o.fields[0]]))
+                rn = deref_all(it.call('structs::row::Row::get_row_num', [o.fields[0]]))
+                self.oblige(ctx, res, nm + '-relocated', z3.And(bool_eq(h, g1), bool_eq(tb, g2), rn == nx), info=info)
+            cnt = len(deref_all(it.call(WS + 'get_row_dimensions', [Ref(ws)])))
+            self.oblige(ctx, res, 'row-settings-count', cnt == exp_rows, info=dict(info, count=cnt, expected=exp_rows))
+            # conditional-format range and auto filter
+            pos = lambda c, r: r if axis == 'row' else c
+            def range_obligation(nm, ranges, x1c, x1r, x2c, x2r):
+                b1, b2 = pos(x1c, x1r), pos(x2c, x2r)
+                inside = op == 'remove' and ctx.branch(z3.And(inband(b1), inband(b2)))
+                if inside: self.oblige(ctx, res, nm + '-deleted', len(ranges) == 0, info=info); return
+                if len(ranges) != 1: self.fail(ctx, res, nm + '-kept', nm + ' lost or duplicated (%d)' % len(ranges), info=info); return
+                f = ranges[0].fields; num = lambda o: o.fields[0].fields[0]
+                sc, sr, ec, er = num(f[0]), num(f[1]), num(f[2]), num(f[3])
+                if op == 'insert': e1, e2 = moved(b1), moved(b2)
+                else: e1 = z3.If(inband(b1), p, moved(b1)); e2 = z3.If(inband(b2), p - 1, moved(b2))
+                exp = z3.And(sr == e1, er == e2, sc == x1c, ec == x2c) if axis == 'row' else z3.And(sc == e1, ec == e2, sr == x1r, er == x2r)
+                self.oblige(ctx, res, nm + '-relocated', exp, info=info)
+            cfs = deref_all(it.call(WS + 'get_conditional_formatting_collection', [Ref(ws)]))
+            rs = []
+            for c_ in cfs:
+                sq = it.call('structs::conditional_formatting::ConditionalFormatting::get_sequence_of_references', [Ref(Box_(deref_all(c_)))])
+                rs.extend(deref_all(x) for x in deref_all(it.call('structs::sequence_of_references::SequenceOfReferences::get_range_collection', [sq])))
+            range_obligation('conditional-format', rs, f1c, f1r, f2c, f2r)
+            af = it.call(WS + 'get_auto_filter', [Ref(ws)])
+            rs = [deref_all(it.call('structs::auto_filter::AutoFilter::get_range', [af.fields[0]]))] if af.variant == 1 else []
+            range_obligation('auto-filter', rs, a1c, a1r, a2c, a2r)
+        except Panic as e:
+            self.fail(ctx, res, 'no-panic', 'observer: ' + str(e), info=info)
+    def case_of(self, v):
+        m = v['model']
+        c = {'op': 'insert' if m['op_insert'] else 'remove', 'axis': 'row' if m['axis_row'] else 'col', 'p': m['p'], 'n': m['n'], 'cols': [m['c1'], m['c2']], 'rows': [m['r1'], m['r2']],
+             'cf': coord_str(m['f1c'], m['f1r'], False, False) + ':' + coord_str(m['f2c'], m['f2r'], False, False), 'af': coord_str(m['a1c'], m['a1r'], False, False) + ':' + coord_str(m['a2c'], m['a2r'], False, False), 'oblig': v['oblig']}
+        c['show'] = dict(c); return c
+    def confirm(self, case, profile):
+        r = native.run_cases([['sheet_settings', case['op'], case['axis'], case['p'], case['n']] + case['cols'] + case['rows'] + [case['cf'], case['af']]], profile)[0]
+        exp = ref_settings_edit(case)
+        if r[0] != 'ok': return True, 'sheet edit %r -> %s %s' % (case['show'], r[0], r[1])
+        got = [native.unhx(x) for x in r[1]]
+        return got != exp, 'observed %r expected %r' % (got, exp)
+def ref_settings_edit(case):
+    op, axis, p, n = case['op'], case['axis'], case['p'], case['n']
+    def mv(x, mine):
+        if not mine: return x
+        if op == 'insert': return x + n if x >= p else x
+        if p <= x < p + n: return None
+        return x - n if x >= p + n else x
+    cols = sorted((mv(x, axis == 'col'), t) for x, t in zip(case['cols'], ('hidden', 'bestfit')) if mv(x, axis == 'col') is not None)
+    rows = sorted((mv(x, axis == 'row'), t) for x, t in zip(case['rows'], ('hidden', 'thickbot')) if mv(x, axis == 'row') is not None)
+    return [','.join('%d=%s' % ct for ct in cols), ','.join('%d=%s' % rt for rt in rows), ref_range_edit(case['cf'], op, axis, p, n) or '-', ref_range_edit(case['af'], op, axis, p, n) or '-']
+
 class SheetMove(Harness):
     name = 'sheet.move_copy'; property_id = 'C07'
     entry = [WS + 'move_range', WS + 'copy_range']
@@ -475,6 +591,6 @@ class FromOtherSheet(Harness):
         return (r[0] != 'ok' or got != exp), 'cells of sheet B after %s %ss at %d (+%d) on sheet A: %r expected %r' % (case['op'], case['axis'], case['p'], case['n'], got if r[0] == 'ok' else r, exp)
 
 def harnesses(tier):
-    return [Scalar(), RangeShift(tier), SheetEdit(tier), SheetMove(tier), BookFanout(), FromOtherSheet()]
+    return [Scalar(), RangeShift(tier), SheetEdit(tier), SheetSettings(tier), SheetMove(tier), BookFanout(), FromOtherSheet()]
 
 OPTIONS = {'want_smir': True}
